@@ -45,6 +45,9 @@ def load_json(name):
         return json.load(f)
 
 
+from ..speccheck import canonical_sig
+
+
 def diff_key(d):
     a, b = d.a, d.b
     what = None
@@ -54,7 +57,7 @@ def diff_key(d):
         what = a.sig()
     elif b is not None:
         what = b.sig()
-    return '%s[%s]' % (d.kind, what)
+    return '%s[%s]' % (d.kind, canonical_sig(what) if isinstance(what, str) else what)
 
 
 def classify(ctx, c):
